@@ -918,6 +918,10 @@ impl Model {
         if scan {
             s.push_str("|scan:");
             s.push_str(&kv.iter().map(|(k, v)| format!("{}={}", hex(k), hex(v))).collect::<Vec<_>>().join(","));
+            s.push_str("|keys:");
+            s.push_str(&kv.keys().rev().map(|k| hex(k)).collect::<Vec<_>>().join(","));
+            s.push_str("|vals:");
+            s.push_str(&kv.values().rev().map(|v| hex(v)).collect::<Vec<_>>().join(","));
         }
         if let Some(next) = chain.first() {
             self.probe("nested_smart_query");
